@@ -112,6 +112,14 @@ def main():
             if [r for r in recs if r["scenario"] == rp["persist_scenario"] and not r["ok"]]:
                 violation(ctx, rp)
             finish(ctx)
+        if "fail_case" in rp:
+            rb = build_harness(ctx, ["realrun"])
+            outp = os.path.join(ctx.run, "fail.jsonl")
+            rc, o = sh([rb["realrun"], "-mode", "fail", "-seed", str(rp["fail_case"]["seed"]), "-n", str(rp["fail_case"]["n"]), "-out", outp], cwd=ctx.run, timeout=600)
+            recs = [json.loads(l) for l in open(outp)] if rc == 0 else []
+            if [r for r in recs if r.get("kind") == "failcase" and not r.get("ok") and r.get("round") == rp["fail_case"]["round"] and r.get("graph") == rp["fail_case"]["graph"]]:
+                violation(ctx, rp)
+            finish(ctx)
         if "reload_walk" in rp:
             rb = build_harness(ctx, ["realrun"])
             outp = os.path.join(ctx.run, "reload.jsonl")
@@ -238,6 +246,31 @@ def main():
         if tbad and not wrong:
             violation(ctx, {"what": "checkStatus differs from System.check_status", "broken": "correspondence schedtab vs coq/System.v check_status",
                             "rows": [rows[i] for i in tbad[:3]]}, found_input=False)
+    if prop == "C08":
+        # the real task runner (real processes) on generated graphs with tasks that succeed, exit non-zero, are killed by a signal or
+        # cannot be parsed, allow_failure and both fail-fast settings; marker files say what actually ran
+        rb = build_harness(ctx, ["realrun"])
+        outp = os.path.join(ctx.run, "fail.jsonl")
+        nr = 6 if ctx.tier == "quick" else 40
+        recs = []
+        if rb:
+            rc, o = sh([rb["realrun"], "-mode", "fail", "-seed", str(ctx.seed), "-n", str(nr), "-out", outp], cwd=ctx.run, timeout=1200)
+            if rc == 0:
+                recs = [json.loads(l) for l in open(outp)]
+        cases = [r for r in recs if r.get("kind") == "failcase"]
+        if not cases or [r for r in recs if r.get("kind") == "error"]:
+            violation(ctx, {"what": "realrun -mode fail did not complete: %s" % [r.get("what") for r in recs if r.get("kind") == "error"][:2],
+                            "broken": "the failure scenarios on the real task runner (C08) cannot run"}, found_input=False)
+        outc = {}
+        for r in cases:
+            for t in r["tasks"]:
+                k = t["outcome"] + ("/allow_failure" if t["allow"] else "")
+                outc[k] = outc.get(k, 0) + 1
+        ctx.coverage["real_runner_failure_graphs"] = len(cases)
+        ctx.coverage["real_runner_task_outcomes"] = outc
+        for r in [r for r in cases if not r["ok"]][:2]:
+            violation(ctx, {"what": "real task runner, pipeline %s (continue_running_tasks_after_failure=%s): %s" % (r["graph"], r["continue"], r["what"]),
+                            "fail_case": {"seed": ctx.seed, "n": nr, "round": r["round"], "graph": r["graph"]}, "case": r})
     if prop == "C16":
         # the reload path of the real application (--watch): a random walk over definition versions that often returns to an
         # earlier content; jobs running / queued / accepted around each change must use the version of their accept time
